@@ -583,7 +583,9 @@ impl AssemblyCode {
                                 }
                             }
                             if let Some(v) = &x_register {
-                                if v.eq(&inst.dasm_operand) {
+                                // The load also sets N and Z: it can only go if the flags
+                                // already describe X (a branch may follow)
+                                if v.eq(&inst.dasm_operand) && flags == FlagsState::X {
                                     // Remove this instruction
                                     remove_second = !inst.protected;
                                 }
@@ -603,7 +605,7 @@ impl AssemblyCode {
                                 }
                             }
                             if let Some(v) = &y_register {
-                                if v.eq(&inst.dasm_operand) {
+                                if v.eq(&inst.dasm_operand) && flags == FlagsState::Y {
                                     // Remove this instruction
                                     remove_second = !inst.protected;
                                 }
